@@ -134,6 +134,10 @@ fn gen_mat3(ch: &mut Chooser, allow_persp: bool, extent: f32) -> Matrix3<f32> {
         // keep the homogeneous divisor within [0.6, 1.4] over the image
         m[(2, 0)] = ch.float_sym("m3_persp_v", 0.2 / extent, 3);
         m[(2, 1)] = ch.float_sym("m3_persp_v", 0.2 / extent, 3);
+    } else if allow_persp && ch.odds("m3_homogeneous_scale", 1, 6) {
+        // no perspective terms, but a homogeneous coordinate other than 1
+        // (a zoom written as diag(1, 1, w), or a matrix times a scalar)
+        m[(2, 2)] = *ch.pick("m3_w", &[2.0f32, 0.5, 1.5, -1.0]);
     }
     m
 }
@@ -172,6 +176,9 @@ fn gen_mat4(ch: &mut Chooser, extent: f32) -> Matrix4<f32> {
     if ch.odds("m4_persp", 1, 6) {
         // keep the homogeneous divisor within [0.6, 1.4] over the grid
         m[(3, 2)] = ch.float_sym("m4_persp_v", 0.4 / extent, 4);
+    } else if ch.odds("m4_homogeneous_scale", 1, 6) {
+        // bottom row [0, 0, 0, w] with w != 1
+        m[(3, 3)] = *ch.pick("m4_w", &[2.0f32, 0.5, 1.5, -1.0]);
     }
     m
 }
@@ -307,7 +314,8 @@ pub fn gen_work(ch: &mut Chooser, kind: Kind, tier: Tier) -> Work {
             }
         }
         Kind::Mesh => {
-            let depth = 1 + ch.choose("depth", if big { 5 } else { 4 }) as u8;
+            // 0 (a single cell) ..= 4 (5 in the thorough tier)
+            let depth = ch.choose("depth", if big { 6 } else { 5 }) as u8;
             (0, 0, 0, None, depth)
         }
     };
@@ -776,7 +784,7 @@ pub fn run_c06(st: &Shared, tier: Tier) -> RunReport {
         let info = take_info(st);
         rep.evaluations += 1;
         rep.steps += info.items + info.polls;
-        account_schedule(&mut rep, &info, pool);
+        account_schedule(&mut rep, &info, pool, &work);
         let out = match out {
             Err(p) => {
                 rep.violate("C06", "panic", format!("render panicked: {p}"));
@@ -855,13 +863,21 @@ pub fn run_c06(st: &Shared, tier: Tier) -> RunReport {
     rep.finish(st)
 }
 
-fn account_schedule(rep: &mut RunReport, info: &ExecInfo, pool: Option<usize>) {
+fn account_schedule(
+    rep: &mut RunReport,
+    info: &ExecInfo,
+    pool: Option<usize>,
+    work: &Work,
+) {
     match pool {
         None => rep.count("sched.no_pool", 1),
         Some(_) => {
             rep.count("sched.pool", 1);
             rep.count("sched.segments", info.segs);
-            if info.segs == 0 {
+            // (a depth-0 octree is a single cell and is built on the calling
+            // thread whatever pool is supplied)
+            let fans_out = !(work.kind == Kind::Mesh && work.depth == 0);
+            if info.segs == 0 && fans_out {
                 // the fan-out did not go through the simulated executor: the
                 // seam was bypassed (reported in the evidence and as a
                 // WARNING line by the driver)
@@ -987,7 +1003,7 @@ pub fn run_c07(st: &Shared, tier: Tier) -> RunReport {
         let info = take_info(st);
         rep.evaluations += 1;
         rep.steps += info.items + info.polls;
-        account_schedule(&mut rep, &info, pool);
+        account_schedule(&mut rep, &info, pool, &work);
         let out = match out {
             Err(p) => {
                 rep.violate("C07", "panic", format!("render panicked: {p}"));
@@ -1200,7 +1216,7 @@ pub fn run_c09(st: &Shared, tier: Tier) -> RunReport {
     let ref_info = take_info(st);
     rep.evaluations += 1;
     rep.steps += ref_info.items + ref_info.polls;
-    account_schedule(&mut rep, &ref_info, None);
+    account_schedule(&mut rep, &ref_info, None, &work);
     st.borrow_mut().log_digest("c09_ref", reference.digest());
 
     // (a) simulated pools, never cancelled
@@ -1212,7 +1228,7 @@ pub fn run_c09(st: &Shared, tier: Tier) -> RunReport {
         let info = take_info(st);
         rep.evaluations += 1;
         rep.steps += info.items + info.polls;
-        account_schedule(&mut rep, &info, pool);
+        account_schedule(&mut rep, &info, pool, &work);
         match out {
             Err(p) => rep.violate("C09", "panic_pool", p),
             Ok(None) => rep.violate(
@@ -1370,7 +1386,7 @@ fn cancel_exec(
         let info = take_info(st);
         rep.evaluations += 1;
         rep.steps += info.items + info.polls;
-        account_schedule(rep, &info, pool);
+        account_schedule(rep, &info, pool, work);
         if info.cancel_fired {
             rep.sigs.push(mix(info.sched, 0xCA));
         }
